@@ -87,6 +87,12 @@ class SrcPrinter:
             return [ind + f"await cohdl.expr({cond_src(s[1])})"]
         if k in ("break", "continue", "return"):
             return [ind + k]
+        if k == "wait":
+            obj = "std" if s[2] == "std" else "waiter"
+            return [ind + f"await {obj}.wait_for({s[1]})"]
+        if k == "waitin":
+            obj = "std" if s[2] == "std" else "waiter"
+            return [ind + f"await {obj}.wait_for(self.dur" + (", allow_zero=True)" if s[1] else ")")]
         if k == "call":
             name = f"sub_{len(self.subs)}"
             self.subs.append(None)
@@ -95,6 +101,16 @@ class SrcPrinter:
             self.subs[idx] = [f"        async def {name}():", "            nonlocal v"] + body
             return [ind + f"await {name}()"]
         raise AssertionError(s)
+
+
+def uses(prog, kinds):
+    for s in prog:
+        if s[0] in kinds:
+            return True
+        for sub in s[1:]:
+            if isinstance(sub, list) and uses(sub, kinds):
+                return True
+    return False
 
 
 def to_source(prog, name="E"):
@@ -110,6 +126,8 @@ def to_source(prog, name="E"):
     ]
     for i in range(N_IN):
         lines.append(f"    c{i} = Port.input(Bit)")
+    if uses(prog, ("waitin",)):
+        lines.append("    dur = Port.input(Unsigned[3])")
     lines += [
         "    cnt = Port.output(Unsigned[2], default=Null)",
         "    mark = Port.output(Unsigned[4], default=Null)",
@@ -117,6 +135,8 @@ def to_source(prog, name="E"):
         "    def architecture(self):",
         "        v = Variable[Unsigned[2]](Null, name='v')",
     ]
+    if "waiter.wait_for" in "\n".join(body + [l for sub in pr.subs for l in sub]):
+        lines.append("        waiter = std.Waiter(7)")
     for sub in pr.subs:
         lines += sub
     lines += [
@@ -164,6 +184,10 @@ def stmt_coq(s):
         return "Return"
     if k == "call":
         return f"(Call {block_coq(s[1])})"
+    if k == "wait":
+        return f"(Wait {s[1]}%Z)"
+    if k == "waitin":
+        return f"(WaitIn {'true' if s[1] else 'false'})"
     raise AssertionError(s)
 
 
@@ -305,18 +329,38 @@ Definition p : stmt := {prog}.
 Definition alphabet : list (list value) := product [{cands}].
 Definition assume (_ : rstate) (_ : list value) := true.
 Definition inits := [(power_up d, rinit)].
-Definition verdict := Eval vm_compute in (vcheck d false (ref_step p) rstate_eqb rhash alphabet assume 400000 inits).
-Eval vm_compute in verdict.
-Eval vm_compute in (match verdict with
-  | VCex path => Some (traceA (vstep d false) (power_up d) path, traceB (ref_step p) rinit path)
-  | _ => None end).
-Theorem case_ok : forall ins, admissible (ref_step p) alphabet assume rinit ins ->
+{count}Theorem case_ok : forall ins, admissible (ref_step p) alphabet assume rinit ins ->
   traceA (vstep d false) (power_up d) ins = traceB (ref_step p) rinit ins.
 Proof.
   apply (vcheck_sound d false (ref_step p) rstate_eqb rstate_eqb_ok rhash alphabet assume 400000 inits);
     [vm_cast_no_check (eq_refl true) | left; reflexivity].
 Qed.
 """
+
+
+DIAG = """Definition verdict := Eval vm_compute in (vcheck_bfs d false (ref_step p) rstate_eqb rhash alphabet assume 400000 inits).
+Eval vm_compute in verdict.
+Eval vm_compute in (match verdict with
+  | VCex path => Some (traceA (vstep d false) (power_up d) path, traceB (ref_step p) rinit path)
+  | _ => None end).
+"""
+COUNT = "Eval vm_compute in (vcheck d false (ref_step p) rstate_eqb rhash alphabet assume 400000 inits).\n"
+
+
+def diagnose(path):
+    src = open(path).read()
+    src = src[:src.index("Theorem case_ok")].replace(COUNT, "")
+    dpath = path[:-2] + "_diag.v"
+    with open(dpath, "w") as f:
+        f.write(src + DIAG)
+    rc, out, err = common.coqc(dpath, 3000)
+    outs = common.coq_outputs(out)
+    verdict = outs[0] if outs else ""
+    if verdict.startswith("VCex"):
+        return "cex", {"path": verdict, "traces": outs[1] if len(outs) > 1 else ""}
+    if verdict.startswith("VFuel"):
+        return "fuel", {}
+    return "error", {"log": (out + err)[-1500:]}
 
 
 def features(prog, acc=None, depth=0):
@@ -340,23 +384,47 @@ def expected_rejection(err):
             or "infinite recursion" in err)
 
 
-def make_case(ck, name, prog, vhdl):
+def all_allow_zero(prog):
+    for s in prog:
+        if s[0] == "waitin" and not s[1]:
+            return False
+        for sub in s[1:]:
+            if isinstance(sub, list) and not all_allow_zero(sub):
+                return False
+    return True
+
+
+def make_case(ck, name, prog, vhdl, count=False):
     ents, d = R.read_design(vhdl)
     term = R.design_to_coq(d)
-    cands = "; ".join("bit_cands" for _ in d.inputs)
+    by = {x.name: x for x in d.sigs}
+    cl = []
+    for n in d.inputs:
+        if by[n].ty.kind == "logic":
+            cl.append("bit_cands")
+        elif uses(prog, ("waitin",)) and not all_allow_zero(prog):
+            cl.append("(tl (vec_cands KUns %d%%N))" % by[n].ty.w)
+        else:
+            cl.append("(vec_cands KUns %d%%N)" % by[n].ty.w)
+    cands = "; ".join(cl)
     path = os.path.join(ck.gen, name + ".v")
     with open(path, "w") as f:
-        f.write(CASE_TMPL.format(header=common.COQ_HEADER, design=term, prog=block_coq(prog), cands=cands))
+        f.write(CASE_TMPL.format(header=common.COQ_HEADER, design=term, prog=block_coq(prog), cands=cands,
+                                 count=COUNT if count else ""))
     return path
 
 
 def classify(rc, out, err):
-    """returns (status, info) with status in ok | cex | fuel | error"""
+    """returns (status, info) with status in ok | failed"""
     outs = common.coq_outputs(out)
     verdict = outs[0] if outs else ""
-    if rc == 0 and verdict.startswith("VOk"):
-        nums = [int(x) for x in verdict.replace("%N", "").split()[1:3]]
-        return "ok", {"states": nums[0], "transitions": nums[1]}
+    if rc == 0:
+        if verdict.startswith("VOk"):
+            nums = [int(x) for x in verdict.replace("%N", "").split()[1:3]]
+            return "ok", {"states": nums[0], "transitions": nums[1]}
+        return "ok", {"states": 0, "transitions": 0}
+    return "failed", {"log": (out + err)[-800:]}
+    # unreachable legacy branches below
     if verdict.startswith("VCex"):
         return "cex", {"path": verdict, "traces": outs[1] if len(outs) > 1 else ""}
     if verdict.startswith("VFuel"):
@@ -386,6 +454,10 @@ def run(ck: common.Check, replay=None):
         g = Gen(ck.rng, max_stmts=10 if ck.tier == "quick" else 14, max_depth=3)
         for i in range(n_rand):
             progs.append((f"rand{i:04d}", g.program()))
+    run_programs(ck, progs)
+
+
+def run_programs(ck, progs, what="emitted state machine and coroutine semantics differ on an input sequence"):
     designs = [{"name": n, "source": to_source(p), "entity": "E"} for n, p in progs]
     res = common.run_worker("compile_worker.py", {"dir": os.path.join(ck.gen, "src"), "designs": designs, "jobs": common.NCPU},
                             timeout=3000)["results"]
@@ -400,7 +472,7 @@ def run(ck: common.Check, replay=None):
                 ck.sample({"rejected": r["error"][:200], "program": prog})
             continue
         try:
-            path = make_case(ck, name, prog, r["vhdl"])
+            path = make_case(ck, name, prog, r["vhdl"], count=(len(cases) % 10 == 0))
         except R.Unparsed as e:
             ck.obligation(False)
             ck.violation({"program": json.dumps(prog)}, "emitted VHDL left the parsed subset: " + str(e),
@@ -414,6 +486,8 @@ def run(ck: common.Check, replay=None):
     states = trans = 0
     for (name, prog, vhdl, path), (rc, out, err) in zip(cases, outs):
         status, info = classify(rc, out, err)
+        if status != "ok":
+            status, info = diagnose(path)
         if status == "ok":
             ck.obligation(True)
             states += info["states"]
@@ -421,7 +495,8 @@ def run(ck: common.Check, replay=None):
             f = features(prog)
             if f.get("await", 0) + f.get("while", 0) >= 1:
                 ck.nontrivial(prog)
-            ck.sample({"program": prog, "states": info["states"], "transitions": info["transitions"]}, limit=4)
+            if info["states"]:
+                ck.sample({"program": prog, "product_states": info["states"], "transitions": info["transitions"]}, limit=4)
             os.unlink(path)
             for ext in (".vo", ".glob", ".vok", ".vos"):
                 try:
@@ -433,8 +508,7 @@ def run(ck: common.Check, replay=None):
             rep = {"program": prog, "source": to_source(prog), "vhdl": vhdl, "case_file": path, "status": status}
             rep.update(info)
             if status == "cex":
-                ck.violation({"program": json.dumps(prog)},
-                             "emitted state machine and coroutine semantics differ on an input sequence", rep)
+                ck.violation({"program": json.dumps(prog)}, what, rep)
             else:
                 ck.violation({"program": json.dumps(prog)},
                              "case obligation not discharged (%s)" % status, rep, no_input=True)
